@@ -235,7 +235,7 @@ func Spec() *core.Spec {
 		Level: "exploration",
 		Rule: "27 implemented operations x {request,response} x {TTLV,XML,JSON} x versions with valid payloads; the 16 named-unimplemented codes, boundary codes and seeded random 32-bit codes with arbitrary generic payloads; " +
 			"9 object types in Get/Export responses and Register/Import requests plus unknown and mismatching object type codes; 50 standard attribute names x 10 TTLV value types; custom/arbitrary attribute names x 10 types; payload types registered for a vendor operation at run time, after the first decode, in a fresh process. " +
-			"Inputs are built by the independent generator (binary) or from the generic tree (XML/JSON). distinct = distinct (class, operation/object/attribute, direction, encoding, value type) combinations",
+			"Inputs are built by the independent generator (binary) or from the generic tree (XML/JSON). 8 goroutines decoding goroutine-specific custom attributes at once; a vendor operation NAME registered at run time followed by all built-in operations written by name by independent writers; distinct = distinct (class, operation/object/attribute, direction, encoding, value type) combinations",
 		Assumptions: []string{"operation/object/attribute type tables in harness/gen/ops.go are written from the KMIP 1.4 specification"},
 		Required:    []string{"typed_payloads", "opaque_payloads", "objects_typed", "objects_unknown_rejected", "attrs_typed", "attrs_wrong_type_rejected", "attrs_opaque", "late_registration_decodes", "late_registration_named_decodes", "concurrent_opaque_decodes"},
 		Families: []core.Family{
